@@ -107,6 +107,10 @@ def scenarios():
         SC("load-vs-keep-after-blobs-were-emptied", [k("/c7/p", "s_text"), k("/c7/q", "s_obj"), scen.act_empty_internal()], [ld("/c7/p"), k("/c7/p", "s_text")], [[T], [T]], {("/c7/p", "data"): [T]},
            [(ld("/c7/p"), [T]), (k("/c7/p", "s_text"), [T])], may_fail=(0,)),
     ] + [
+        # a store whose blobs were written days ago: two readers, and a reader next to a keep that is served from the store
+        SC("two-loads-of-an-old-blob", [k("/c7/p", "s_text"), scen.act_age_metadata(3)], [ld("/c7/p"), ld("/c7/p")], [[T], [T]], {("/c7/p", "data"): [T]}, [(k("/c7/p", "s_text"), [T])]),
+        SC("load-vs-served-keep-of-an-old-blob", [k("/c7/p", "s_obj"), scen.act_age_metadata(400)], [ld("/c7/p"), k("/c7/p", "s_obj")], [[E["s_obj"]], [E["s_obj"]]], {("/c7/p", "data"): [E["s_obj"]]}, [(ld("/c7/p"), [E["s_obj"]])]),
+    ] + [
         # both processes register the same user file codec for dict results before they keep; one of them is a session that
         # had kept a dict result before registering it: blob and metadata written by the two must still belong together
         SC("same-keep-user-codec-registered-late-in-one-process", [], [scen.act_keep_user_codec("/c7/u", "s_dict", earlier="s_dict_earlier"), scen.act_keep_user_codec("/c7/u", "s_dict")], [[E["s_dict"]], [E["s_dict"]]], {},
